@@ -317,6 +317,7 @@ type Contract struct {
 	Clauses  []*Clause
 	Props    []string // property ids this contract serves
 	Lets     []letDef
+	Binds    []bindDef
 	Fuel     int
 	File     string
 	Line     int
@@ -324,6 +325,12 @@ type Contract struct {
 	Results  []string
 	NoPanic  bool // generate safety obligations (default true)
 	Config   map[string]string
+}
+
+type bindDef struct {
+	Name string
+	E    *Expr
+	Cond *Expr
 }
 
 type letDef struct {
@@ -367,7 +374,7 @@ type SpecDB struct {
 }
 
 var clauseKW = map[string]bool{"requires": true, "ensures": true, "assigns": true, "loop": true, "mode": true,
-	"trusted": true, "pure": true, "inline": true, "props": true, "let": true, "fuel": true, "params": true, "results": true, "where": true, "config": true, "cases": true}
+	"trusted": true, "pure": true, "inline": true, "props": true, "let": true, "fuel": true, "params": true, "results": true, "where": true, "config": true, "cases": true, "binds": true}
 var blockKW = map[string]bool{"spec": true, "func": true, "schema": true, "lemma": true, "table": true, "ufun": true, "witness": true}
 
 // readContractLines extracts //@ lines (also "// @") from a Go file.
@@ -616,6 +623,25 @@ func parseClauseLine(c *Contract, w, rest string) error {
 		default:
 			return fmt.Errorf("unknown mode %q", m)
 		}
+	case "binds":
+		// binds <result> = <pointer expression> [when <condition>]: the result IS that location (used for
+		// results that point into another object, which a fresh reference cannot represent)
+		name, r := firstWord(rest)
+		r = strings.TrimSpace(strings.TrimPrefix(strings.TrimSpace(r), "="))
+		var cond *Expr
+		if i := strings.Index(r, " when "); i >= 0 {
+			ce, err := ParseExpr(strings.TrimSpace(r[i+6:]))
+			if err != nil {
+				return err
+			}
+			cond = ce
+			r = strings.TrimSpace(r[:i])
+		}
+		e, err := ParseExpr(r)
+		if err != nil {
+			return err
+		}
+		c.Binds = append(c.Binds, bindDef{name, e, cond})
 	case "let":
 		name, r := firstWord(rest)
 		r = strings.TrimSpace(strings.TrimPrefix(strings.TrimSpace(r), "="))
